@@ -89,8 +89,8 @@ var structs = map[string]*structInfo{
 // loop fuel: enough for every input (this is PROVED in GenProps.v: the equalities are with `Ok (model ...)`
 // or with the model function whose own fuel is proved sufficient); constant-bound counting loops get bound+1.
 var fuelTable = map[string]int{
-	"Uint256.LeftShift#1":  4,
-	"Uint256.RightShift#1": 4,
+	"Uint256.LeftShift#1":  8,
+	"Uint256.RightShift#1": 8,
 	"Uint256.Div#1":        257,
 	"Uint256.Div#2":        257,
 }
@@ -131,10 +131,17 @@ type Fn struct {
 	state   int // 0 new, 1 in progress, 2 done, 3 failed
 	res     bool
 	text    string // emitted definitions (loops + the function)
+	loopNames []string
+	sigNames []string // Coq parameter names
 	err     string
 }
 
-func (f *Fn) coqName() string { return "T_" + f.recv + "_" + f.name }
+func (f *Fn) coqName() string {
+	if f.recv == "" {
+		return "T_fn_" + f.name
+	}
+	return "T_" + f.recv + "_" + f.name
+}
 
 var fns = map[string]*Fn{}
 var fnOrder []string
@@ -202,7 +209,12 @@ type ctx struct {
 	nloop   int
 	ntmp    int
 	loops   []string // emitted loop fixpoints
+	loopNames []string
 	retLoop func() string
+	contK   func() string // what `continue` does in the innermost loop
+	breakK  func() string // what `break` does in the innermost loop
+	brk     []string      // stack of breakable statements: "loop" / "switch"
+	nrange  int
 }
 
 func (c *ctx) push()       { c.scopes = append(c.scopes, &scope{vars: map[string]*Ty{}}) }
@@ -408,6 +420,23 @@ func (c *ctx) binop(op token.Token, xs string, xt *Ty, ys string, yt *Ty) (strin
 		t := joinNum(xt, yt, op.String())
 		o := map[token.Token]string{token.ADD: "+", token.SUB: "-", token.MUL: "*"}[op]
 		return wrap(t, paren(xs)+" "+o+" "+paren(ys)), t
+	case token.QUO, token.REM:
+		t := joinNum(xt, yt, op.String())
+		d, err := strconv.ParseUint(ys, 10, 64)
+		if err != nil || d == 0 {
+			fail("division by a non-constant or zero divisor outside the subset")
+		}
+		if t.K == "int" {
+			// Go truncates toward zero
+			if op == token.QUO {
+				return "Z.quot " + paren(xs) + " " + ys, t
+			}
+			return "Z.rem " + paren(xs) + " " + ys, t
+		}
+		if op == token.QUO {
+			return paren(xs) + " / " + ys, t
+		}
+		return paren(xs) + " mod " + ys, t
 	case token.SHL, token.SHR:
 		t := xt
 		if t.K == "untyped" {
@@ -667,7 +696,20 @@ func (c *ctx) call(x *ast.CallExpr, k K) string {
 				return ""
 			})
 		case "int":
-			fail("conversion to int outside the subset")
+			return c.expr(x.Args[0], func(s string, t *Ty) string {
+				switch t.K {
+				case "int", "untyped":
+					return k(s, tInt)
+				case "u64":
+					return k("wrapi "+paren(s), tInt)
+				}
+				fail("conversion of %s to int", t.K)
+				return ""
+			})
+		}
+		// plain (non-method) function of the package
+		if callee := fns["fn."+id.Name]; callee != nil {
+			return c.apply(callee, "", x.Args, k)
 		}
 		fail("call of %s outside the subset", id.Name)
 	}
@@ -692,6 +734,10 @@ func (c *ctx) call(x *ast.CallExpr, k K) string {
 					t := c.tmp()
 					return c.bind("div64r "+paren(ss[0])+" "+paren(ss[1])+" "+paren(ss[2]), t, k(t, &Ty{K: "tuple", Elems: []*Ty{tU64, tU64}}))
 				})
+			case "bits.Len64":
+				return c.exprs(x.Args, func(ss []string, ts []*Ty) string {
+					return k("len64 "+paren(ss[0]), tInt)
+				})
 			case "bits.LeadingZeros64":
 				return c.exprs(x.Args, func(ss []string, ts []*Ty) string {
 					return k("lzcnt64 "+paren(ss[0]), tInt)
@@ -709,27 +755,39 @@ func (c *ctx) call(x *ast.CallExpr, k K) string {
 		if callee == nil {
 			fail("unknown method %s.%s", rt.Name, sel.Sel.Name)
 		}
-		translate(callee)
-		if callee.state == 1 {
-			fail("recursion through %s outside the subset", callee.key)
+		return c.apply(callee, paren(rs), x.Args, k)
+	})
+}
+
+// apply: call of a translated method (recv = receiver term) or plain function (recv = "")
+func (c *ctx) apply(callee *Fn, recv string, args []ast.Expr, k K) string {
+	translate(callee)
+	if callee.state == 1 {
+		fail("recursion through %s outside the subset", callee.key)
+	}
+	if callee.state != 2 {
+		fail("calls %s, which is untranslated", callee.key)
+	}
+	if len(args) != len(callee.params) {
+		fail("arity of %s", callee.key)
+	}
+	return c.exprs(args, func(ss []string, ts []*Ty) string {
+		app := callee.coqName()
+		if recv != "" {
+			app += " " + recv
 		}
-		if callee.state != 2 {
-			fail("calls %s, which is untranslated", callee.key)
-		}
-		if len(x.Args) != len(callee.params) {
-			fail("arity of %s", callee.key)
-		}
-		return c.exprs(x.Args, func(ss []string, ts []*Ty) string {
-			app := callee.coqName() + " " + paren(rs)
-			for _, s := range ss {
-				app += " " + paren(s)
+		for i, s := range ss {
+			w := callee.params[i].Ty
+			if !(ts[i].K == w.K && ts[i].Name == w.Name || ts[i].K == "untyped" && w.isNum()) {
+				fail("argument %d of %s: %s where %s is declared", i, callee.key, ts[i].K, w.K)
 			}
-			if callee.res {
-				t := c.tmp()
-				return c.bind(app, t, k(t, callee.retTy))
-			}
-			return k(app, callee.retTy)
-		})
+			app += " " + paren(s)
+		}
+		if callee.res {
+			t := c.tmp()
+			return c.bind(app, t, k(t, callee.retTy))
+		}
+		return k(app, callee.retTy)
 	})
 }
 
@@ -737,7 +795,8 @@ func (c *ctx) call(x *ast.CallExpr, k K) string {
 
 func (c *ctx) ret(vals []string) string {
 	if c.inLoop > 0 {
-		fail("return inside a loop outside the subset")
+		// a loop that contains a return yields `inl <returned value>` / `inr <loop state>`
+		return "Ok (inl " + paren(tuple(vals)) + ")"
 	}
 	return c.ok(tuple(vals))
 }
@@ -872,7 +931,23 @@ func (c *ctx) assign(lhs []ast.Expr, rhs []ast.Expr, define bool, k func() strin
 		fail("assignment count mismatch")
 	}
 	if len(lhs) > 1 {
-		fail("parallel assignment outside the subset")
+		// a, b := e1, e2: every right-hand side is evaluated before any assignment
+		return c.exprs(rhs, func(ss []string, ts []*Ty) string {
+			tn := make([]string, len(ss))
+			out := ""
+			for i, s := range ss {
+				tn[i] = c.tmp()
+				out += "let " + tn[i] + " := " + s + " in\n"
+			}
+			var rec func(i int) string
+			rec = func(i int) string {
+				if i == len(lhs) {
+					return k()
+				}
+				return c.assignTo(lhs[i], define, tn[i], ts[i], func() string { return rec(i + 1) })
+			}
+			return out + rec(0)
+		})
 	}
 	return c.expr(rhs[0], func(s string, t *Ty) string {
 		return c.assignTo(lhs[0], define, s, t, k)
@@ -1051,9 +1126,36 @@ func (c *ctx) stmt(s ast.Stmt, k func() string) string {
 				func() string { return c.block(cases[i].Body, k) },
 				func() string { return rec(i + 1) })
 		}
-		return rec(0)
+		k0 := k
+		k = func() string { // the code after the switch is not inside it
+			saved := c.brk
+			c.brk = c.brk[:len(c.brk)-1]
+			r := k0()
+			c.brk = saved
+			return r
+		}
+		c.brk = append(c.brk, "switch")
+		r := rec(0)
+		c.brk = c.brk[:len(c.brk)-1]
+		return r
 	case *ast.ForStmt:
 		return c.forStmt(x, k)
+	case *ast.RangeStmt:
+		return c.rangeStmt(x, k)
+	case *ast.BranchStmt:
+		if x.Label != nil || c.inLoop == 0 {
+			fail("%s outside the subset", x.Tok)
+		}
+		switch x.Tok {
+		case token.CONTINUE:
+			return c.contK()
+		case token.BREAK:
+			if len(c.brk) == 0 || c.brk[len(c.brk)-1] != "loop" {
+				fail("break inside a switch outside the subset")
+			}
+			return c.breakK()
+		}
+		fail("%s outside the subset", x.Tok)
 	}
 	fail("statement %T outside the subset", s)
 	return ""
@@ -1148,8 +1250,17 @@ func identsAssigned(nodes ...ast.Node) map[string]bool {
 				}
 			case *ast.IncDecStmt:
 				m[rootIdent(s.X)] = true
+			case *ast.RangeStmt:
+				if s.Key != nil {
+					m[rootIdent(s.Key)] = true
+				}
+				if s.Value != nil {
+					m[rootIdent(s.Value)] = true
+				}
 			case *ast.BranchStmt:
-				fail("%s outside the subset", s.Tok)
+				if s.Label != nil || (s.Tok != token.CONTINUE && s.Tok != token.BREAK) {
+					fail("%s outside the subset", s.Tok)
+				}
 			}
 			return true
 		})
@@ -1206,10 +1317,22 @@ func (c *ctx) forStmt(x *ast.ForStmt, k func() string) string {
 		}
 		// fuel
 		fuel, why := loopFuel(c.fn.key, idx, x)
+		// a loop whose body contains a return yields inl <returned value> | inr <state>
+		hasRet := containsReturn(x.Body)
+		if hasRet {
+			stTy = "(" + c.fn.retTy.coq() + " + " + stTy + ")"
+		}
 		// body of the fixpoint
 		c.inLoop++
 		again := func() string { return name + " fuel' " + strings.Join(pn, " ") }
 		exit := "Ok " + paren(tuple(sn))
+		if hasRet {
+			exit = "Ok (inr " + paren(tuple(sn)) + ")"
+		}
+		saveC, saveB, saveBrk := c.contK, c.breakK, c.brk
+		c.contK = func() string { return c.stmtOpt(x.Post, again) }
+		c.breakK = func() string { return exit }
+		c.brk = append(append([]string{}, c.brk...), "loop")
 		body := func() string {
 			return c.block(x.Body.List, func() string { return c.stmtOpt(x.Post, again) })
 		}
@@ -1219,14 +1342,105 @@ func (c *ctx) forStmt(x *ast.ForStmt, k func() string) string {
 		} else {
 			fx = c.cond(x.Cond, body, func() string { return exit })
 		}
+		c.contK, c.breakK, c.brk = saveC, saveB, saveBrk
 		c.inLoop--
+		line := fset.Position(x.Pos()).Line
+		if !x.Pos().IsValid() && x.Body != nil {
+			line = fset.Position(x.Body.Pos()).Line
+		}
 		def := fmt.Sprintf("(* %s: loop %d of %s (line %d); fuel used by the caller: %d (%s) *)\nFixpoint %s (fuel : nat)%s {struct fuel} : res %s :=\nmatch fuel with\n| O => OutOfFuel\n| S fuel' =>\n%s\nend.\n",
-			name, idx, c.fn.key, fset.Position(x.Pos()).Line, fuel, why, name, sig, stTy, fx)
+			name, idx, c.fn.key, line, fuel, why, name, sig, stTy, fx)
 		c.loops = append(c.loops, def)
-		return c.bind(fmt.Sprintf("%s %d%%nat %s", name, fuel, strings.Join(pn, " ")), pat(sn), c.outer(k)())
+		c.loopNames = append(c.loopNames, name)
+		call := fmt.Sprintf("%s %d%%nat %s", name, fuel, strings.Join(pn, " "))
+		if hasRet {
+			t := c.tmp()
+			rv := c.tmp()
+			c.effect = true
+			return "bind (" + call + ") (fun " + t + " =>\nmatch " + t + " with\n| inl " + rv + " => " + c.retRaw(rv) + "\n| inr " + tuplePat(sn) + " =>\n" + c.outer(k)() + "\nend)"
+		}
+		return c.bind(call, pat(sn), c.outer(k)())
 	})
 	c.pop()
 	return r
+}
+
+// retRaw: return of an already evaluated (tupled) value
+func (c *ctx) retRaw(v string) string {
+	if c.inLoop > 0 {
+		return "Ok (inl " + v + ")"
+	}
+	return c.ok(v)
+}
+
+func tuplePat(names []string) string {
+	if len(names) == 0 {
+		return "_"
+	}
+	if len(names) == 1 {
+		return names[0]
+	}
+	return "(" + strings.Join(names, ", ") + ")"
+}
+
+func containsReturn(n ast.Node) bool {
+	found := false
+	ast.Inspect(n, func(x ast.Node) bool {
+		if _, ok := x.(*ast.ReturnStmt); ok {
+			found = true
+		}
+		if _, ok := x.(*ast.FuncLit); ok {
+			return false
+		}
+		return true
+	})
+	return found
+}
+
+// rangeStmt: `for i, w := range X` over an array of constant length N is the counting loop
+// `{ r := X; for i := 0; i < N; i++ { w := r[i]; body } }` (Go evaluates X once and iterates over a copy)
+func (c *ctx) rangeStmt(x *ast.RangeStmt, k func() string) string {
+	if x.Tok != token.DEFINE {
+		fail("range without := outside the subset")
+	}
+	xs, xt, ok := c.tryPure(x.X)
+	_ = xs
+	if !ok || xt.K != "arr" {
+		fail("range over something else than an array value outside the subset")
+	}
+	c.nrange++
+	arr := fmt.Sprintf("rng%d_", c.nrange)
+	key := fmt.Sprintf("rki%d_", c.nrange)
+	if id, ok := x.Key.(*ast.Ident); ok && id.Name != "_" {
+		key = id.Name
+	} else if x.Key != nil {
+		if _, ok := x.Key.(*ast.Ident); !ok {
+			fail("range key outside the subset")
+		}
+	}
+	body := []ast.Stmt{}
+	if x.Value != nil {
+		vid, ok := x.Value.(*ast.Ident)
+		if !ok {
+			fail("range value outside the subset")
+		}
+		if vid.Name != "_" {
+			body = append(body, &ast.AssignStmt{Lhs: []ast.Expr{ast.NewIdent(vid.Name)}, Tok: token.DEFINE,
+				Rhs: []ast.Expr{&ast.IndexExpr{X: ast.NewIdent(arr), Index: ast.NewIdent(key)}}})
+		}
+	}
+	body = append(body, x.Body.List...)
+	loop := &ast.ForStmt{
+		Init: &ast.AssignStmt{Lhs: []ast.Expr{ast.NewIdent(key)}, Tok: token.DEFINE, Rhs: []ast.Expr{&ast.BasicLit{Kind: token.INT, Value: "0"}}},
+		Cond: &ast.BinaryExpr{X: ast.NewIdent(key), Op: token.LSS, Y: &ast.BasicLit{Kind: token.INT, Value: strconv.Itoa(xt.N)}},
+		Post: &ast.IncDecStmt{X: ast.NewIdent(key), Tok: token.INC},
+		Body: &ast.BlockStmt{Lbrace: x.Body.Lbrace, List: body},
+	}
+	blk := &ast.BlockStmt{List: []ast.Stmt{
+		&ast.AssignStmt{Lhs: []ast.Expr{ast.NewIdent(arr)}, Tok: token.DEFINE, Rhs: []ast.Expr{x.X}},
+		loop,
+	}}
+	return c.stmt(blk, k)
 }
 
 func loopFuel(key string, idx int, x *ast.ForStmt) (int, string) {
@@ -1283,15 +1497,21 @@ func translate(f *Fn) {
 		c = &ctx{fn: f, res: res}
 		c.push()
 		sig := ""
-		if f.recvVar != "" {
+		f.sigNames = nil
+		if f.recv == "" {
+			// plain function: no receiver
+		} else if f.recvVar != "" {
 			c.declare(f.recvVar, &Ty{K: "struct", Name: f.recv})
 			sig += " (" + cname(f.recvVar) + " : " + (&Ty{K: "struct", Name: f.recv}).coq() + ")"
+			f.sigNames = append(f.sigNames, cname(f.recvVar))
 		} else {
-			sig += " (_ : " + (&Ty{K: "struct", Name: f.recv}).coq() + ")"
+			sig += " (recv_ : " + (&Ty{K: "struct", Name: f.recv}).coq() + ")"
+			f.sigNames = append(f.sigNames, "recv_")
 		}
 		for _, p := range f.params {
 			c.declare(p.Name, p.Ty)
 			sig += " (" + cname(p.Name) + " : " + p.Ty.coq() + ")"
+			f.sigNames = append(f.sigNames, cname(p.Name))
 		}
 		c.push()
 		init := ""
@@ -1315,6 +1535,13 @@ func translate(f *Fn) {
 		}
 		text += fmt.Sprintf("(* %s  (%s:%d) *)\nDefinition %s%s : %s :=\n%s%s.\n", f.key,
 			filepath.Base(fset.Position(f.decl.Pos()).Filename), fset.Position(f.decl.Pos()).Line, f.coqName(), sig, rt, init, body)
+		// uniform res-typed view R_<f> (Ok around the pure functions): statements on R_ survive a change of purity
+		rname := "R" + strings.TrimPrefix(f.coqName(), "T")
+		app := f.coqName() + " " + strings.Join(f.sigNames, " ")
+		if !res {
+			app = "Ok (" + strings.TrimSpace(app) + ")"
+		}
+		text += fmt.Sprintf("Definition %s%s : res %s := %s.\n", rname, sig, f.retTy.coq(), strings.TrimSpace(app))
 		return
 	}
 	text, c, err := run(true)
@@ -1330,6 +1557,7 @@ func translate(f *Fn) {
 		return
 	}
 	f.text = text
+	f.loopNames = c.loopNames
 	f.state = 2
 	emitted = append(emitted, f.key)
 }
@@ -1351,7 +1579,14 @@ const header = `(** GENERATED by tools/go2coq_obifp.go from pkg/obifp/{uint64,ui
       sequenced with [bind]; the others are pure.  log.Warnf is ignored (no effect on the value).
     - if / switch chains -> nested if; the statements after an if are duplicated in both branches (early returns).
     - assignments -> shadowing let; x.f = e -> record rebuilt; a[i] = e -> aset (Panic when out of range).
-    - for loops -> fuelled fixpoints <fn>_loop<k> over the variables they use, returning the variables they assign. *)
+    - for loops -> fuelled fixpoints <fn>_loop<k> over the variables they use, returning the variables they assign;
+      [for i, w := range A] over an array of constant length N -> [r := A; for i := 0; i < N; i++ { w := r[i]; ... }];
+      continue -> the post statement and the next iteration; break -> the loop exit; a loop containing a return yields
+      inl <returned value> | inr <state>.
+    - plain functions f -> T_fn_f; bits.Len64 -> len64; x / c, x mod c for a non-zero constant c (Z.quot / Z.rem on int);
+      int(x) -> wrapi x; a, b := e1, e2 -> both right-hand sides first.
+    - R_<f> is T_<f> seen as a res-valued function (Ok around the pure ones): the theorems of GenProps.v that must survive
+      a change of purity are stated on R_. *)
 From Coq Require Import ZArith List Bool.
 From OBI.C20 Require Import Model.
 Import ListNotations.
@@ -1363,6 +1598,7 @@ Definition bind {A B : Type} (r : res A) (f : A -> res B) : res B :=
 Definition div64r (hi lo y : Z) : res (Z * Z) :=
   match div64 hi lo y with Some p => Ok p | None => Panic end.
 Definition wrapi (x : Z) : Z := (x + 2^63) mod W - 2^63.
+Definition len64 (x : Z) : Z := 64 - lzcnt64 x.
 Definition aget (a : list Z) (i : Z) : res Z :=
   if (0 <=? i) && (i <? Z.of_nat (length a)) then Ok (nth (Z.to_nat i) a 0) else Panic.
 Fixpoint upd (a : list Z) (i : nat) (v : Z) : list Z :=
@@ -1420,7 +1656,13 @@ func main() {
 					}
 				}
 			case *ast.FuncDecl:
-				if x.Recv == nil || len(x.Recv.List) != 1 {
+				if x.Recv == nil {
+					f := &Fn{key: "fn." + x.Name.Name, recv: "", name: x.Name.Name, decl: x}
+					fns[f.key] = f
+					fnOrder = append(fnOrder, f.key)
+					continue
+				}
+				if len(x.Recv.List) != 1 {
 					report = append(report, fmt.Sprintf("UNTRANSLATED %s: not a method", x.Name.Name))
 					continue
 				}
@@ -1451,7 +1693,7 @@ func main() {
 					panic(r)
 				}
 			}()
-			if _, ok := structs[f.recv]; !ok {
+			if _, ok := structs[f.recv]; !ok && f.recv != "" {
 				fail("receiver type %s outside the subset", f.recv)
 			}
 			if f.decl.Type.TypeParams != nil {
@@ -1504,6 +1746,16 @@ func main() {
 			report = append(report, fmt.Sprintf("UNTRANSLATED %s: %s", key, fns[key].err))
 		}
 	}
+	// tactics naming everything defined above (used by the shape-independent proofs of C20/GenProofs.v)
+	defs, loops := []string{}, []string{}
+	for _, key := range emitted {
+		f := fns[key]
+		defs = append(defs, f.coqName(), "R"+strings.TrimPrefix(f.coqName(), "T"))
+		loops = append(loops, f.loopNames...)
+	}
+	b.WriteString("Ltac T_unfold_all := cbv delta [" + strings.Join(defs, " ") + "].\n")
+	b.WriteString("Ltac T_unfold_all_in H := cbv delta [" + strings.Join(defs, " ") + "] in H.\n")
+	b.WriteString("Ltac T_loops_step := cbn [bind " + strings.Join(loops, " ") + "].\n\n")
 	b.WriteString("(* translated: " + strings.Join(emitted, " ") + " *)\n")
 	for _, r := range report {
 		b.WriteString("(* " + strings.ReplaceAll(r, "*)", "* )") + " *)\n")
